@@ -407,6 +407,8 @@ fn loop_input_backlog(rr: &RunResult) -> bool {
         return false;
     }
     let mut targets: BTreeSet<u64> = BTreeSet::new();
+    // senders blocked on something else: (from block, to blocks)
+    let mut others: Vec<(u64, Vec<u64>)> = vec![];
     for t in &blocked {
         if let Some(rest) = t.name.strip_prefix("demux-") {
             // demux-<host>:<from>-<to>
@@ -414,16 +416,41 @@ fn loop_input_backlog(rr: &RunResult) -> bool {
             let Some((a, b)) = link.split_once('-') else { return false };
             let (Ok(a), Ok(b)) = (a.parse::<u64>(), b.parse::<u64>()) else { return false };
             if !heads.contains(&b) || replicas(a) <= RENOIR_CHANNEL_CAPACITY {
-                return false;
+                others.push((a, vec![b]));
+                continue;
             }
             targets.insert(b);
         } else if let Some(n) = t.name.strip_prefix("block-").and_then(|x| x.parse::<u64>().ok()) {
             let outs: Vec<u64> = g.block_edges.iter().filter(|(f, _, _)| *f == n).map(|(_, t, _)| *t).collect();
             if outs.is_empty() || !outs.iter().all(|o| heads.contains(o)) || replicas(n) <= RENOIR_CHANNEL_CAPACITY {
-                return false;
+                others.push((n, outs));
+                continue;
             }
             targets.extend(outs);
         } else {
+            return false;
+        }
+    }
+    if targets.is_empty() {
+        return false;
+    }
+    // every other blocked sender must be a consequence: it feeds a block that also waits for
+    // the output of the stuck loop (a block downstream of a stuck loop head that has stopped
+    // reading its other input until the loop's side arrives)
+    let mut down: BTreeSet<u64> = targets.clone();
+    loop {
+        let before = down.len();
+        for (f, t, _) in &g.block_edges {
+            if down.contains(f) {
+                down.insert(*t);
+            }
+        }
+        if down.len() == before {
+            break;
+        }
+    }
+    for (_, outs) in &others {
+        if outs.is_empty() || !outs.iter().all(|o| down.contains(o) && !targets.contains(o)) {
             return false;
         }
     }
@@ -476,7 +503,25 @@ pub fn c04(sc: &Scenario, rr: &RunResult) -> Vec<Violation> {
         }
         Verdict::Budget if rr.outcome.progress_since_last_window => {
             // still delivering batches when the budget ran out: a long run, not a verdict
-            // (counted as "runs_out_of_budget" in the evidence)
+            // (counted as "runs_out_of_budget" in the evidence) - unless a loop has already gone
+            // past its iteration bound: that job would never end
+            for m in rr.meta.iter().filter(|m| m.pos == "loophead" && m.path.len() == 1) {
+                let Some(l) = loop_at(&sc.steps, &m.path) else { continue };
+                for ((p, c), hist) in rr.rec.probes.iter() {
+                    if *p != m.id {
+                        continue;
+                    }
+                    let rounds = hist.iter().filter(|r| r.kind == K_FAR).count();
+                    if rounds > l.rounds + 1 {
+                        out.push(viol(
+                            "C04",
+                            "loop-exceeds-bound",
+                            format!("the loop of step {} is bounded by {} iterations; replica {:?} of its head has gone through {} when the step budget ran out", m.path[0], l.rounds, c, rounds),
+                        ));
+                        return out;
+                    }
+                }
+            }
             return out;
         }
         Verdict::Budget => {
@@ -484,8 +529,10 @@ pub fn c04(sc: &Scenario, rr: &RunResult) -> Vec<Violation> {
                 "C04",
                 "no-termination-within-budget",
                 format!(
-                    "job did not terminate within {} scheduling steps / {} ns of virtual time",
-                    rr.outcome.steps, rr.outcome.vtime_ns
+                    "job did not terminate within {} scheduling steps / {} ns of virtual time; busiest unfinished threads:\n{}",
+                    rr.outcome.steps,
+                    rr.outcome.vtime_ns,
+                    rr.outcome.budget_report()
                 ),
             ));
             return out;
